@@ -172,7 +172,7 @@ func (c *Controller) loop(done chan struct{}) {
 			}
 			cands = append(cands, Cand{ID: id, Step: t.step})
 		}
-		if len(cands) == 0 && c.Expected > 0 && c.arrived < c.Expected && time.Since(c.lastArr) < 2*time.Second {
+		if len(cands) == 0 && (c.Expected <= 0 || c.arrived < c.Expected) && time.Since(c.lastArr) < 2*time.Second {
 			// maybe a task of this batch has not reached its first hook yet: not a verdict
 			c.mu.Unlock()
 			time.Sleep(500 * time.Microsecond)
